@@ -15,7 +15,7 @@ func init() {
 	register(&Property{
 		ID:      "C08",
 		NeedSSA: true,
-		Decided: "Structural necessary conditions: (coherence) for the frozen table of cursor fields of every seekable reader (row index, page index, skip count, pending-action flags, buffered page/values), the field is assigned — or pinned by the true edge of an equality test on it — on every path to a success exit of the method that moves the position (SeekToRow, ReadRows, ReadPage, ReadValues); a flag that only some paths set, or a count that some successful exit does not account for, is reported with the exit; (prefix) a count-returning method that advances its slice parameter returns counts that include the advance; (errors) no error of a SeekToRow/Seek/Discard call is dropped or swallowed outside the listed exceptions; (async) the asynchronous page reader hands out a page only under the version equality test, and its sticky fatal error is never cleared inside the read loop. (reposition) wherever FilePages assigns its page cursor (found by role: the field ReadPage advances by one) an absolute position, the same function repositions the stream (Seek/Reset/new stream) on the same path; (position) FilePages.SeekToRow returns success without moving the stream only through a test on a value derived from the stream position query; (reset) the cursors of rowGroupRows and columnChunkValueReader are re-established by their Reset; (closed) a method that closes the object held in a receiver field while the receiver stays in use replaces the field on every non-failing path. (errexit) a ReadRows that reads several column readers stores into its receiver (or calls a method of it) in the block that returns the error of a column read; (loopcond) no loop whose only exit is its condition has a condition that nothing in the loop can change. (fanout) a SeekToRow of a composite reader that repositions children kept in a slice field of the receiver does it in a loop whose only bound is the length of that field (`i < len(S)` or a range over it), with no condition inside the loop that lets an iteration skip a child and continue; a child indexed by a variable is never rewound to a constant outside such a loop. (slicekeep) a Slice or Clone method of a page type that builds its result as a literal of its own receiver type sets every field of the type (directly or by filling it through a method of the field). (rowsfollow) a function that gives the internal reader another row group also replaces (or has just dropped, under a nil test) the rows it has open. (fanout, cont.) the loop is left only at its bound or on a failing return, and its first index is computed from the cursor as the function leaves it (no later assignment of the field it was read from).",
+		Decided: "Structural necessary conditions: (coherence) for the frozen table of cursor fields of every seekable reader (row index, page index, skip count, pending-action flags, buffered page/values), the field is assigned — or pinned by the true edge of an equality test on it — on every path to a success exit of the method that moves the position (SeekToRow, ReadRows, ReadPage, ReadValues); a flag that only some paths set, or a count that some successful exit does not account for, is reported with the exit; (prefix) a count-returning method that advances its slice parameter returns counts that include the advance; (errors) no error of a SeekToRow/Seek/Discard call is dropped or swallowed outside the listed exceptions; (async) the asynchronous page reader hands out a page only under the version equality test, and its sticky fatal error is never cleared inside the read loop. (reposition) wherever FilePages assigns its page cursor (found by role: the field ReadPage advances by one) an absolute position, the same function repositions the stream (Seek/Reset/new stream) on the same path; (position) FilePages.SeekToRow returns success without moving the stream only through a test on a value derived from the stream position query; (reset) the cursors of rowGroupRows and columnChunkValueReader are re-established by their Reset; (closed) a method that closes the object held in a receiver field while the receiver stays in use replaces the field on every non-failing path. (errexit) a ReadRows that reads several column readers stores into its receiver (or calls a method of it) in the block that returns the error of a column read; (loopcond) no loop whose only exit is its condition has a condition that nothing in the loop can change. (fanout) a SeekToRow of a composite reader that repositions children kept in a slice field of the receiver does it in a loop whose only bound is the length of that field (`i < len(S)` or a range over it), with no condition inside the loop that lets an iteration skip a child and continue; a child indexed by a variable is never rewound to a constant outside such a loop. (slicekeep) a Slice or Clone method of a page type that builds its result as a literal of its own receiver type sets every field of the type (directly or by filling it through a method of the field). (rowsfollow) a function that gives the internal reader another row group also replaces (or has just dropped, under a nil test) the rows it has open. (fanout, cont.) the loop is left only at its bound or on a failing return, and its first index is computed from the cursor as the function leaves it (no later assignment of the field it was read from). (errexit, cont.) the same for SeekToRow methods that have an \"already there\" shortcut (a parameter compared with a field of the receiver) and reposition the elements of a slice field one after the other.",
 		NotDecided: "the row arithmetic of skips and slices (boundary comparisons, the first index of a rewind loop), equality of the rows returned, behaviour after a read error has been reported.",
 		Assumptions: []string{
 			"path consistency is evaluated per function over its SSA control-flow graph; a callee counts as assigning a field when it assigns it on all of its own paths",
@@ -597,11 +597,36 @@ func c08ErrExit(c *Ctx) {
 	p := c.P
 	n := 0
 	for _, fn := range p.ModuleSSAFuncs() {
-		if fn.Origin() != nil || fn.Blocks == nil || fn.Parent() != nil || fn.Name() != "ReadRows" || fn.Signature.Recv() == nil || fn.Pkg == nil || fn.Pkg.Pkg != p.Root.Types {
+		if fn.Origin() != nil || fn.Blocks == nil || fn.Parent() != nil || (fn.Name() != "ReadRows" && fn.Name() != "SeekToRow") || fn.Signature.Recv() == nil || fn.Pkg == nil || fn.Pkg.Pkg != p.Root.Types {
 			continue
 		}
 		recv := fn.Params[0]
 		own := fieldsOfStruct(namedOf(recv.Type()))
+		wanted := "ReadValues"
+		if fn.Name() == "SeekToRow" {
+			// only the seeks that have a shortcut ("already there") can go on
+			// from a half-done repositioning: a parameter compared with a field
+			// of the receiver
+			wanted = "SeekToRow"
+			shortcut := false
+			allInstrs(fn, false, func(_ *ssa.Function, ins ssa.Instruction) {
+				bo, ok := ins.(*ssa.BinOp)
+				if !ok || (bo.Op != token.EQL && bo.Op != token.NEQ) {
+					return
+				}
+				isPar := func(v ssa.Value) bool { _, ok := v.(*ssa.Parameter); return ok }
+				isOwn := func(v ssa.Value) bool {
+					fs, root, _ := fieldChain(v)
+					return len(fs) > 0 && root == ssa.Value(recv) && own[fs[0]]
+				}
+				if (isPar(bo.X) && isOwn(bo.Y)) || (isPar(bo.Y) && isOwn(bo.X)) {
+					shortcut = true
+				}
+			})
+			if !shortcut {
+				continue
+			}
+		}
 		var calls []*ssa.Call
 		allCalls(fn, false, func(_ *ssa.Function, ci ssa.CallInstruction) {
 			call, ok := ci.(*ssa.Call)
@@ -616,7 +641,7 @@ func c08ErrExit(c *Ctx) {
 			} else if sc := cc.StaticCallee(); sc != nil && sc.Signature.Recv() != nil && len(cc.Args) > 0 {
 				name, target = fnName(sc), cc.Args[0]
 			}
-			if name != "ReadValues" || target == nil {
+			if name != wanted || target == nil {
 				return
 			}
 			// the callee object is an element of a slice field of the receiver
@@ -632,6 +657,9 @@ func c08ErrExit(c *Ctx) {
 		for i, call := range calls {
 			n++
 			var errv ssa.Value
+			if isErrorType(call.Type()) {
+				errv = call // SeekToRow returns the error alone
+			}
 			for _, r := range *call.Referrers() {
 				if ex, ok := r.(*ssa.Extract); ok && isErrorType(ex.Type()) {
 					errv = ex
